@@ -355,7 +355,13 @@ class BaseDetector(BaseEstimator):
         if y is not None:
             y = check_series(y, allow_index_names=True)
 
-        self._X = X.combine_first(self._X)
+        # combine_first needs pandas data on both sides; arrays get a default index.
+        if not isinstance(X, (pd.Series, pd.DataFrame)):
+            X = pd.DataFrame(X)
+        X_old = self._X
+        if not isinstance(X_old, (pd.Series, pd.DataFrame)):
+            X_old = pd.DataFrame(X_old)
+        self._X = X.combine_first(X_old)
 
         if y is not None:
             self._y = y.combine_first(self._y)
